@@ -23,7 +23,7 @@ PROPS["C02"] = {
         "the byte-at-a-time DFA walk (MatcherDecoder) and NFA compilation are outside both verifiers: totality/termination of the walk, 'None when exhausted' and raw events being non-empty in-order slices are assumed, not decided",
         "utf8_shape (first-byte class + 10xxxxxx tails) is what utf8_nfa accepts: assumed",
         "payload decoder harnesses replace number_decode by a stub justified by its Verus contract; each covers one sequence template (bounded in shape, complete in numeric values)",
-        "TermCapMatcher, DeviceAttrsMatcher (BTreeMap/BTreeSet), ReportSettingMatcher (a harness on it crashes kani-compiler 0.68), OSControlMatcher (str parsing; parse_color itself has thorough-tier harnesses): not under contract",
+        "TermCapMatcher, DeviceAttrsMatcher (BTreeMap/BTreeSet), ReportSettingMatcher (a harness on it crashes kani-compiler 0.68), OSControlMatcher and parse_color (str parsing: harnesses were built and withdrawn, CBMC does not finish): not under contract",
     ],
 }
 
